@@ -560,6 +560,13 @@ pub fn run(seed: u64, tier: &str, ev: &mut Evidence) -> Vec<Violation> {
         }
         specs.push((format!("gen:{}", j), spec));
     }
+    // seeded random heap graphs (shared sub-structure, diamonds, cycles): rendering and dispatch over them must not depend on
+    // the profile, the hash seed or anything else either
+    let n_graphs = if tier == "thorough" { 4000usize } else { 160 };
+    for j in 0..n_graphs {
+        let mut rng = Rng::for_case(seed, "C11", "random-graph", j as u64);
+        specs.push((format!("graph:{}", j), ProgSpec::Source(super::c10::random_graph_program(&mut rng))));
+    }
     // W1e: programs at the limits of the format's index widths and of the compiler's own checks —
     // where debug-only assertions, overflow checks and `as` casts could make the profiles disagree.
     for (name, src) in limit_templates() {
